@@ -411,6 +411,9 @@ static void case_spherical(Rng& rng, uint64_t index)
 	{
 		ld four_pi = 4 * acosl(-1.0L) * R;
 		judge("spherical-shell-is-4pi-times-radial-integral", (double) (fabsl((ld) got - four_pi) / fabsl(four_pi)), 3e-9, [&] { return det().d("4pi_radial", (double) four_pi); });
+		// the same shell with the angular ranges (and the method) left to the default arguments of the overload: the full sphere
+		double got_default = Integrate_3D(f, r1, r2);
+		judge("spherical-shell-with-default-angular-range", (double) (fabsl((ld) got_default - four_pi) / fabsl(four_pi)), 3e-9, [&] { return det().d("Integrate_3D(f,r1,r2)", got_default).d("4pi_radial", (double) four_pi); });
 	}
 	require("spherical-integrand-receives-3-vectors", !bad_vec && nr.n > 0, det);
 	bool okr = nr.lo >= rlo * (1 - 8 * EPS) - 1e-300 && nr.hi <= rhi * (1 + 8 * EPS);
